@@ -343,7 +343,16 @@ func main() {
 	if c.Thorough && float64(len(never)) > 0.1*float64(nonPair) {
 		c.Infra("vacuity: %d of %d non-pair catalogue entries were never applied: %v", len(never), nonPair, never)
 	}
-	c.Traces(int64(rs.Behaviours + ls.fixed))
+	c.Traces(int64(rs.Behaviours+ls.fixed) + ls.honestBehaviours)
+	evals += ls.honestBlocks
+	nontrivial += ls.honestBlocks
+	c.Cov("honest_exhaustive_families_behaviours", ls.honestPerFamily)
+	c.Cov("honest_exhaustive_families_blocks_validated_applied_reverted", ls.honestBlocks)
+	for _, f := range honestFamilies() {
+		if (!f.thoroughExtra || c.Thorough) && ls.honestPerFamily[f.name] == 0 {
+			c.Infra("vacuity: the exhaustive family %s produced no behaviour", f.name)
+		}
+	}
 	c.Cov("ledger_fixed_behaviours_replayed", ls.fixed)
 	c.Cov("ledger_behaviours_replayed", rs.Behaviours)
 	c.Cov("ledger_blocks_mutated", ls.blocks)
